@@ -120,6 +120,10 @@ int p_c06(void)
 				}
 		}
 	}
+	/* (N1*k)^2 above 2^33 (see p_c05.c): the canonical codeword of a large, high-degree code */
+	rep_unit(unit);
+	if (rep_unit_mine(unit)) { rng_t rng = rng_make(g_run.seed, 898, 0); ldpc_case(30000, 300, 8, 1 + (uint32_t)(rng_u64(&rng) % 2147483646u), 4, PAY_RANDOM, 0, &rng); ldpc_case(12000, 6000, 10, 16807, 4, PAY_RANDOM, 0, &rng); }
+	unit++;
 	if (T) {
 		rep_unit(unit);
 		if (rep_unit_mine(unit)) { rng_t rng = rng_make(g_run.seed, 899, 0); ldpc_case(20000, 10000, 5, 1, 4, PAY_RANDOM, 0, &rng); ldpc_case(49997, 3, 3, 2147483646u, 4, PAY_RANDOM, 0, &rng); }
